@@ -286,10 +286,104 @@ Fixpoint init_discipline (st : status) (tr : list event) : Prop :=
       end /\ init_discipline (status_ev st e) r
   end.
 
-(* ---------- correspondence interface (used by the generated cases) ---------- *)
-
 Definition assoc {A} (l : list (name * A)) (s : name) : option A :=
   option_map snd (find (fun p => Nat.eqb (fst p) s) l).
+
+(* ---------- the mode CLASS: where the states come from ----------
+
+   A mode is a Python class.  Its states are whatever attribute lookup on the
+   class finds, i.e. they may be defined in the concrete class or inherited
+   from any base class (a shared "settle -> shoot" tail in a common base mode,
+   the mode-specific states in the subclass), and a subclass may redefine a
+   name (as another state, or as something that is not a state).
+
+   [classbody]  vars(C) of one class: the names assigned in its body.
+                [AState d first]: a wrapper made by @timed_state/@state with the
+                decorator arguments; [AOther]: any other attribute (a plain
+                method, a constant, None).
+   [mro]        type(self).__mro__, most derived class first (the linearisation
+                is Python's; StatefulAutonomous and object contribute no states).
+   [class_getattr]  getattr(cls, name): the first class of the MRO whose body
+                assigns the name decides.
+   [class_dir]  dir(cls): every name assigned in some class of the MRO, once.
+                (Python sorts them; the order is immaterial for the outcome of
+                __build_states, see Proofs.build_states_* .) *)
+Inductive attr := AState (d : sdecl) (first : bool) | AOther.
+Definition classbody := list (name * attr).
+Definition mro := list classbody.
+
+Fixpoint class_getattr (m : mro) (n : name) : option attr :=
+  match m with
+  | [] => None
+  | c :: r => match assoc c n with Some a => Some a | None => class_getattr r n end
+  end.
+
+Definition class_dir (m : mro) : list name :=
+  nodup Nat.eq_dec (concat (map (map fst) m)).
+
+(* isinstance(getattr(cls, name), _State), and the wrapper's attributes *)
+Definition state_decl (o : option attr) : option sdecl :=
+  match o with Some (AState d _) => Some d | _ => None end.
+Definition is_state (m : mro) (n : name) : bool :=
+  match state_decl (class_getattr m n) with Some _ => true | None => false end.
+Definition is_first (m : mro) (n : name) : bool :=
+  match class_getattr m n with Some (AState _ true) => true | _ => false end.
+
+(* __build_states (called by __init__), lines 311-370:
+     for name in dir(cls):
+         state = getattr(cls, name)
+         if not isinstance(state, _State): continue
+         if state.first:
+             if has_first: raise ValueError("Multiple states ...")
+             self.__first = name; has_first = True
+         if hasattr(state, "duration"): register "<name>_duration" for read-back
+     if not has_first: raise ValueError("Starting state not defined!")
+   The result is the list of discovered states (with what the decorator stored:
+   the read-back list __sd_args is its timed part) and the first state. *)
+Inductive ctor_err := MultipleFirst | NoFirst.
+
+Fixpoint build_loop (m : mro) (names : list name) (first : option name)
+  : ctor_err + (list (name * sdecl) * option name) :=
+  match names with
+  | [] => inr ([], first)
+  | n :: r =>
+      match class_getattr m n with
+      | Some (AState d f) =>
+          match f, first with
+          | true, Some _ => inl MultipleFirst
+          | _, _ =>
+              match build_loop m r (if f then Some n else first) with
+              | inr (l, fi) => inr ((n, d) :: l, fi)
+              | inl e => inl e
+              end
+          end
+      | _ => build_loop m r first
+      end
+  end.
+
+Definition build_states (inf : Z) (m : mro) : ctor_err + shape :=
+  match build_loop m (class_dir m) None with
+  | inl e => inl e
+  | inr (l, Some f) => inr {| sh_states := l; sh_first := f; sh_inf := inf |}
+  | inr (_, None) => inl NoFirst
+  end.
+
+(* everything observable of a mode object: None when the constructor raised *)
+Definition mode_trace (inf : Z) (m : mro) (h : list op) : option (list event) :=
+  match build_states inf m with
+  | inr sh => Some (trace sh h)
+  | inl _ => None
+  end.
+
+(* the duration the property gives state s of the class in a period enabled
+   with dashboard d -- stated on the class, wherever s is defined *)
+Definition mode_duration (inf : Z) (m : mro) (d : name -> option Z) (s : name) : Z :=
+  match class_getattr m s with
+  | Some (AState (Timed dflt _) _) => match d s with Some v => v | None => dflt end
+  | _ => inf
+  end.
+
+(* ---------- correspondence interface (used by the generated cases) ---------- *)
 Definition dash_tbl (l : list (name * Z)) : name -> option Z := assoc l.
 
 (* scripted state function: first matching rule wins *)
@@ -345,4 +439,20 @@ Fixpoint bad (i : nat) (l : list case) : list nat :=
   match l with
   | [] => []
   | c :: r => if case_ok c then bad (S i) r else i :: bad (S i) r
+  end.
+
+(* the same on a mode CLASS: the harness hands over the class bodies in MRO
+   order; [None] as observation = the constructor raised (ValueError). *)
+Definition ccase := (Z * mro * list op * option (list obs))%type.
+Definition ccase_ok (c : ccase) : bool :=
+  let '(inf, m, h, oos) := c in
+  match mode_trace inf m h, oos with
+  | Some tr, Some os => trace_matches (filter visible tr) os
+  | None, None => true
+  | _, _ => false
+  end.
+Fixpoint cbad (i : nat) (l : list ccase) : list nat :=
+  match l with
+  | [] => []
+  | c :: r => if ccase_ok c then cbad (S i) r else i :: cbad (S i) r
   end.
